@@ -707,6 +707,9 @@ def _ops():
             return op_autoshape(prs, rnd)
         sh = rnd.choice(c)
         k = rnd.randrange(5)
+        shadow_first = rnd.random() < 0.5
+        if shadow_first:
+            sh.shadow.inherit = rnd.choice([True, False])  # a:effectLst present before the fill / line children are added
         if k == 0:
             sh.fill.background()
         elif k == 1:
@@ -728,7 +731,8 @@ def _ops():
             sh.line.color.rgb = RGBColor(4, 4, 4)
             sh.line.width = rnd.choice([0, 12700, 20116800])
             sh.line.dash_style = rnd.choice([None] + list(MSO_LINE)[:4])
-        sh.shadow.inherit = rnd.choice([True, False])
+        if not shadow_first:
+            sh.shadow.inherit = rnd.choice([True, False])
         sh.rotation = rnd.choice([0, 45.5, 359.99, 360, 720, -90])
         sh.name = rnd.choice(["n", "Name & <co>"])
         sh.left, sh.top, sh.width, sh.height = rnd.choice(BIG), rnd.choice(BIG), abs(rnd.choice(BIG)), abs(rnd.choice(BIG))
